@@ -16,6 +16,7 @@
 package c24
 
 import (
+	"bytes"
 	"context"
 	"encoding/json"
 	"fmt"
@@ -99,7 +100,12 @@ func genConc(maxClients, maxOps int, modes []string, backendOps bool) func(t *ra
 				}
 			}
 			// few big results: each moves 18 MiB over the loopback socket
-			nbig := rapid.SampledFrom([]int{0, 0, 0, 0, 0, 1, 1, 2}).Draw(t, "nbig")
+			bigs := []int{0, 0, 0, 0, 0, 1, 1, 2}
+			if os.Getenv("VERIF_RACE") != "" {
+				// under the race detector reading 16 MiB takes many seconds on a loaded machine
+				bigs = []int{0, 0, 0, 0, 0, 0, 0, 0, 0, 0, 0, 0, 0, 0, 0, 1}
+			}
+			nbig := rapid.SampledFrom(bigs).Draw(t, "nbig")
 			if nbig > 0 {
 				c.Rounds = 1
 			}
@@ -127,15 +133,17 @@ func genConc(maxClients, maxOps int, modes []string, backendOps bool) func(t *ra
 }
 
 type concState struct {
-	max     int
-	held    atomic.Int32
-	maxHeld atomic.Int32
-	mu      sync.Mutex
-	first   string // first failure
-	kind    string
-	labels  map[string]bool
-	closing atomic.Bool
-	capOver atomic.Bool // Capacity() above the maximum capacity was observed
+	max      int
+	held     atomic.Int32
+	maxHeld  atomic.Int32
+	mu       sync.Mutex
+	first    string // first failure
+	kind     string
+	labels   map[string]bool
+	closing  atomic.Bool
+	capOver  atomic.Bool  // Capacity() above the maximum capacity was observed
+	progress atomic.Int64 // client and controller operations completed
+	skip     string       // inconclusive (too slow)
 }
 
 func (s *concState) fail(kind, f string, a ...interface{}) {
@@ -171,15 +179,82 @@ func yield(n int) {
 	}
 }
 
-func joinOrTimeout(wg *sync.WaitGroup, d time.Duration) bool {
+// joinJudged waits for wg. When it has not joined after first, the workload is either slow
+// (loaded machine, race detector, 16 MiB results) or dead-locked. It is called dead-locked,
+// and reported, only when two goroutine dumps 10 s apart (longer than every Get timeout) show
+// every goroutine of the workload and of the pool parked on a channel, select or lock and no
+// operation completed in between; a workload that is still moving after 10 minutes is given up
+// as inconclusive (skip), never as a violation.
+func joinJudged(wg *sync.WaitGroup, first time.Duration, st *concState, what string) bool {
 	done := make(chan struct{})
 	go func() { wg.Wait(); close(done) }()
 	select {
 	case <-done:
 		return true
-	case <-time.After(d):
-		return false
+	case <-time.After(first):
 	}
+	dumpStuck()
+	deadline := time.Now().Add(10 * time.Minute)
+	parkedBefore, progBefore := false, int64(-1)
+	for time.Now().Before(deadline) {
+		select {
+		case <-done:
+			st.label("slow_workload")
+			return true
+		case <-time.After(10 * time.Second):
+		}
+		p, prog := workloadParked(), st.progress.Load()
+		if p && parkedBefore && prog == progBefore {
+			st.fail("stuck", "%s: every goroutine of the workload has been parked on a channel or lock for more than 10 s and nothing completes", what)
+			return false
+		}
+		parkedBefore, progBefore = p, prog
+	}
+	st.mu.Lock()
+	st.skip = "workload too slow: " + what + " still running after 10 min"
+	st.mu.Unlock()
+	return false
+}
+
+var (
+	markRound   = []byte("props/c24.run")
+	markBackend = []byte("backend.(*connectionPoolImpl)")
+)
+
+func workloadParked() bool {
+	buf := make([]byte, 8<<20)
+	n := runtime.Stack(buf, true)
+	dump := buf[:n]
+	first := true
+	for len(dump) > 0 {
+		var block []byte
+		if i := bytes.Index(dump, []byte("\n\n")); i >= 0 {
+			block, dump = dump[:i], dump[i+2:]
+		} else {
+			block, dump = dump, nil
+		}
+		if first {
+			first = false
+			continue
+		}
+		if !bytes.Contains(block, markRound) && !bytes.Contains(block, markPool) && !bytes.Contains(block, markBackend) {
+			continue
+		}
+		a, b := bytes.IndexByte(block, '['), bytes.IndexByte(block, ']')
+		if a < 0 || b < a {
+			return false
+		}
+		state := string(block[a+1 : b])
+		if i := strings.IndexByte(state, ','); i >= 0 {
+			state = state[:i]
+		}
+		switch state {
+		case "chan receive", "chan send", "select", "semacquire", "sync.Mutex.Lock", "sync.RWMutex.Lock", "sync.RWMutex.RLock", "sync.WaitGroup.Wait", "sync.Cond.Wait":
+		default:
+			return false
+		}
+	}
+	return true
 }
 
 // classify maps a failure of a workload to a known finding when the workload
@@ -254,6 +329,7 @@ func runPoolRound(c concCase, st *concState) {
 			defer wg.Done()
 			<-start
 			for _, op := range ops {
+				st.progress.Add(1)
 				to := 2 * time.Second // backend.GetConnTimeout
 				if op.Kind == "try" {
 					to = 200 * time.Microsecond
@@ -305,6 +381,7 @@ func runPoolRound(c concCase, st *concState) {
 		defer cwg.Done()
 		<-start
 		for _, op := range c.Ctl {
+			st.progress.Add(1)
 			kind := op.Kind
 			switch {
 			case c.Mode == "shrink":
@@ -342,12 +419,10 @@ func runPoolRound(c concCase, st *concState) {
 			st.capOver.Store(true)
 		}
 	}()
-	if !joinOrTimeout(&wg, 60*time.Second) {
-		st.fail("stuck", "clients did not finish within 60 s (every Get has a 2 s timeout)")
+	if !joinJudged(&wg, 60*time.Second, st, "clients (every Get has a 2 s timeout)") {
 		return
 	}
-	if !joinOrTimeout(&cwg, 30*time.Second) {
-		st.fail("stuck", "every client has returned its connections, but a controller operation (sweep/SetCapacity/scale-in/Close) is still blocked after 30 s")
+	if !joinJudged(&cwg, 30*time.Second, st, "every client has returned its connections, controller operation (sweep/SetCapacity/scale-in/Close)") {
 		return
 	}
 	deadline := time.Now().Add(30 * time.Second)
@@ -374,9 +449,7 @@ func runPoolRound(c concCase, st *concState) {
 		var w sync.WaitGroup
 		w.Add(1)
 		go func() { defer w.Done(); rp.Close() }()
-		if !joinOrTimeout(&w, 30*time.Second) {
-			st.fail("stuck", "Close with no connection handed out did not return")
-		}
+		joinJudged(&w, 30*time.Second, st, "Close with no connection handed out")
 	}
 }
 
@@ -391,10 +464,14 @@ func checkConc(round func(concCase, *concState)) func(c concCase) pbt.Outcome {
 		if os.Getenv("VERIF_REPLAY") != "" {
 			rounds *= 50 // a replayed schedule-dependent failure gets more attempts
 		}
-		for i := 0; i < rounds && st.first == ""; i++ {
+		for i := 0; i < rounds && st.first == "" && st.skip == ""; i++ {
 			st.held.Store(0)
 			st.closing.Store(false)
 			round(c, st)
+		}
+		if st.first == "" && st.skip != "" {
+			o.Skip = st.skip
+			return
 		}
 		o.Labels = append(o.Labels, "mode_"+c.Mode, fmt.Sprintf("clients_%d", len(c.Clients)))
 		if int(st.maxHeld.Load()) >= c.Max {
@@ -491,6 +568,7 @@ func runBackendRound(c concCase, st *concState) {
 			defer wg.Done()
 			<-start
 			for _, op := range ops {
+				st.progress.Add(1)
 				to := 3 * time.Second
 				if op.Kind == "try" {
 					to = 300 * time.Microsecond
@@ -574,13 +652,10 @@ func runBackendRound(c concCase, st *concState) {
 		}
 	}()
 	close(start)
-	if !joinOrTimeout(&wg, 90*time.Second) {
-		dumpStuck()
-		st.fail("stuck", "clients did not finish within 90 s")
+	if !joinJudged(&wg, 90*time.Second, st, "clients") {
 		return
 	}
-	if !joinOrTimeout(&cwg, 30*time.Second) {
-		st.fail("stuck", "every client has returned its connections, but SetCapacity/Close is still blocked after 30 s")
+	if !joinJudged(&cwg, 30*time.Second, st, "every client has returned its connections, SetCapacity/Close") {
 		return
 	}
 	if c.Mode != "close" {
@@ -595,9 +670,7 @@ func runBackendRound(c concCase, st *concState) {
 		var w sync.WaitGroup
 		w.Add(1)
 		go func() { defer w.Done(); cp.Close() }()
-		if !joinOrTimeout(&w, 30*time.Second) {
-			st.fail("stuck", "Close with no connection handed out did not return")
-		}
+		joinJudged(&w, 30*time.Second, st, "Close with no connection handed out")
 	}
 }
 
